@@ -244,6 +244,8 @@ def run(chk):
     events = record_sessions(rnd, 500 if thorough else 120, 30 if thorough else 18, root)
     validate_sessions(chk, events, 'sessions')
     chk.sample({'session_events': events[:5]})
+    # 5. the pytest entry point: real `python -m pytest` processes with --write-all / --write kinds... --------------
+    pytest_sessions(chk, rnd, 240 if thorough else 36)
     # binding demonstration (thorough): corrupt one field / drop one event -> must be rejected
     if thorough:
         demonstrate_binding(chk, events)
@@ -257,6 +259,34 @@ def run(chk):
     chk.assume('a write is observed as a change of (inode, mtime_ns, size, sha1) after ageing the file')
     chk.assume('outcome of a normal-mode assertion whose reference is missing is not demanded '
                '(failure or error), only that nothing is created')
+
+
+def pytest_sessions(chk, rnd, n):
+    """Projects whose tests assert through the `ref` fixture; each pytest process is one Trace_RefTest session."""
+    import shutil
+    from concurrent.futures import ThreadPoolExecutor
+    from harness import pytest_lib as pl
+    root = common.subdir('c10_pytest')
+    seeds = [rnd.randrange(10**9) for _ in range(n)]
+
+    def one(i):
+        return pl.regen_session(random.Random(seeds[i]), os.path.join(root, 'proj%d' % i), 100000 + 10 * i)
+    with ThreadPoolExecutor(14) as ex:
+        results = list(ex.map(one, range(n)))
+    events, details = [], {}
+    for evs, det in results:
+        events.extend(evs)
+        details.update(det)
+    rejected = validate_sessions(chk, events, 'pytest_sessions')
+    chk.coverage['pytest_processes'] = len(details)
+    for tid, d in sorted(details.items()):
+        chk.count_case(('pytest-session', tid, json.dumps(d['pytest_args'])), nontrivial=len(d['pytest_args']) > 1)
+        if d['executed_steps'] != d['expected_steps']:
+            chk.violation({'kind': 'pytest-session', 'clause': 'EverySelectedTestRuns'},
+                          dict(d, how='python -m pytest on a generated project; the tests record their own assertions'))
+    if events:
+        chk.sample({'pytest_session_events': events[:4], 'pytest_args': details[events[0]['tid']]['pytest_args']})
+    shutil.rmtree(root, ignore_errors=True)
 
 
 def replay_pytest_options(chk, rnd, n):
